@@ -14,7 +14,7 @@ import tempfile
 ROOT = os.path.dirname(os.path.dirname(os.path.abspath(__file__)))
 INBOX = os.path.join(ROOT, 'seeded', os.environ.get('CURATE_INBOX', '_inbox'))
 OFFSET = int(os.environ.get('CURATE_OFFSET', '0'))       # round 2 is filed as <Cnn>-3, <Cnn>-4
-EXTRA = {'C02-8': ['C09', 'C10'], 'C01-4': ['C07'], 'C20-3': ['C14'], 'C06-3': ['C03'], 'C16-4': ['C04'], 'C04-4': ['C05'],
+EXTRA = {'C02-8': ['C09', 'C10'], 'C15-10': ['C01'], 'C08-10': ['C12'], 'C01-4': ['C07'], 'C20-3': ['C14'], 'C06-3': ['C03'], 'C16-4': ['C04'], 'C04-4': ['C05'],
          'C05-2': ['C04'], 'C06-1': ['C03'], 'C06-2': ['C03'], 'C07-1': ['C03'], 'C07-2': ['C04'], 'C04-1': ['C07'],
          'C16-1': ['C04'], 'C03-1': ['C07'], 'C14-1': ['C20']}
 
